@@ -181,5 +181,51 @@ theorem lane32_set1 (x : BitVec 32) (k : Nat) (hk : k < 4) : lane32 (set1_epi32 
   have := mk32_lanes (set1_epi32 x)
   interval_cases k <;> (unfold set1_epi32 lane32 mk32; bv_lsb)
 
+/-! ### byte lists ⇄ 32-bit lanes (for the remainder packing lemmas) -/
+
+theorem le64_join (l : List (BitVec 8)) : le64 l = join32 (le32 (l.drop 4)) (le32 l) := by
+  simp only [le64, le32, join32, List.getD_eq_getElem?_getD, List.getElem?_drop]
+  bv_lsb
+
+theorem and_mk32 (d c b a d' c' b' a' : BitVec 32) :
+    and_si128 (mk32 d c b a) (mk32 d' c' b' a') = mk32 (d &&& d') (c &&& c') (b &&& b') (a &&& a') := by
+  unfold and_si128 mk32; bv_lsb
+
+theorem mk_as_mk32 (h l : BitVec 64) : mk h l = mk32 ((h >>> 32).setWidth 32) (h.setWidth 32) ((l >>> 32).setWidth 32) (l.setWidth 32) := by
+  unfold mk mk32; bv_lsb
+
+theorem join32_lo (b a : BitVec 32) : (join32 b a).setWidth 32 = a := by unfold join32; bv_lsb
+theorem join32_hi (b a : BitVec 32) : ((join32 b a) >>> 32).setWidth 32 = b := by unfold join32; bv_lsb
+
+theorem le32_cons4 (a b c d : BitVec 8) (r : List (BitVec 8)) : le32 (a :: b :: c :: d :: r) = le32 [a, b, c, d] := rfl
+theorem le32_zero4 : le32 [0#8, 0#8, 0#8, 0#8] = 0#32 := by decide
+theorem and_ones32 (x : BitVec 32) : x &&& 4294967295#32 = x := by bv_lsb
+theorem join32_zero : join32 0#32 0#32 = 0#64 := by decide
+/-- `unordered_load3` of 1, 2, 3 bytes (the additions are carry-free) as the 64-bit lane of the padded packet -/
+theorem load3_3 (a b c : BitVec 8) :
+    a.setWidth 64 + (b.setWidth 64 <<< 8) + (c.setWidth 64 <<< 16) = join32 0#32 (le32 [a, b, c, 0#8]) := by
+  rw [BitVec.add_eq_or_of_and_eq_zero, BitVec.add_eq_or_of_and_eq_zero]
+  · simp only [le32, join32, List.getD_cons_zero, List.getD_cons_succ]; bv_lsb
+  · bv_lsb
+  · rw [BitVec.add_eq_or_of_and_eq_zero]
+    · bv_lsb
+    · bv_lsb
+theorem load3_1 (a : BitVec 8) :
+    a.setWidth 64 + (a.setWidth 64 <<< 8) + (a.setWidth 64 <<< 16) = join32 0#32 (le32 [a, a, a, 0#8]) := load3_3 a a a
+theorem load3_2 (a b : BitVec 8) :
+    a.setWidth 64 + (b.setWidth 64 <<< 8) + (b.setWidth 64 <<< 16) = join32 0#32 (le32 [a, b, b, 0#8]) := load3_3 a b b
+theorem insert3 (d c b a x : BitVec 32) : insert_epi32 (mk32 d c b a) x 3 = mk32 x c b a := by
+  have h := lane32_mk32 d c b a
+  simp only [insert_epi32, Nat.reduceMod, h.1, h.2.1, h.2.2.1, ↓reduceIte, OfNat.ofNat_ne_zero, OfNat.ofNat_ne_one, Nat.reduceEqDiff]
+theorem set1_mk32 (x : BitVec 32) : set1_epi32 x = mk32 x x x x := rfl
+theorem ofBytes16_mk32 (l : List (BitVec 8)) :
+    ofBytes16 l = mk32 (le32 (l.drop 12)) (le32 (l.drop 8)) (le32 (l.drop 4)) (le32 l) := by
+  simp only [ofBytes16, le64_join, mk32_eq_mk, List.drop_drop]
+theorem zero_mk32 : set_epi64x 0#64 0#64 = mk32 0 0 0 0 := by decide
+theorem mask_lo : cvtsi64_si128 4294967295#64 = mk32 0 0 0 0xFFFFFFFF#32 := by decide
+theorem mask_hi : slli_si128 (mk32 0 0 0 0xFFFFFFFF#32) 8 = mk32 0 0xFFFFFFFF#32 0 0 := by decide
+theorem loadl_mk32 (mem : List (BitVec 8)) (off : Nat) : loadl_epi64 mem off = mk32 0 0 (le32 ((mem.drop off).drop 4)) (le32 (mem.drop off)) := by
+  simp only [loadl_epi64, le64_join, mk_as_mk32, join32_lo, join32_hi]
+  congr 1
 end X86
 end HH
